@@ -222,8 +222,10 @@ def atom_models():
     return models
 
 
-MASKS = ["*.txt", "(a|b)", "x y;'z"]
-OPS = [("file", None), ("file", 0), ("file", 2), ("dir", None), ("dir", 1), ("raw", None), ("nothing", None)]
+MASKS = ["*.txt", "(a|b)", "x y;'z", "*.(c|h'x)", "(a'; touch /tmp/pwn; 'b)"]
+# the first seven entries keep their positions (quick-tier pairs are addressed by index); masks 3 and 4 take
+# the extglob branch of the bash renderer (`*.(..)`, `(..)`) *and* contain a quote
+OPS = [("file", None), ("file", 0), ("file", 2), ("dir", None), ("dir", 1), ("raw", None), ("nothing", None), ("file", 3), ("dir", 4), ("file", 1)]
 
 
 def mk_op(ex, spec):
